@@ -720,7 +720,12 @@ def _first_diff(a, b):
 def execute(plan):
     if plan.get("slots") is None:
         raise HarnessError("plan without slots")
-    res = run_isolated(_run, plan)
+    if plan.get("cold"):
+        from ..driver import cold_run
+
+        res = cold_run(NAME, plan)
+    else:
+        res = run_isolated(_run, plan)
     st = res["stats"]
     counters = dict(st)
     violations = []
